@@ -432,7 +432,140 @@ pub fn one_run(seed: u64, run: u64, pools: &Pools, or: &Oracles, deliveries: usi
     out
 }
 
+// ---------------------------------------------------------------------------
+// deep batch: one verifier process, several threads, different public keys
+// ---------------------------------------------------------------------------
+//
+// verify is a pure function only as long as it keeps nothing between calls. 2-5 baton-scheduled
+// threads, each mostly with its own public key, verify honest signatures (under the right key and,
+// now and then, under somebody else's) in the instrumented build; every verdict must be SpecVerify's.
+
+fn deep_run(seed: u64, run: u64, pool: &crate::world::KeyPool<V512>) -> RunOutcome {
+    use crate::signers::{self, Keys, Op, OpResult, WorldPlan};
+    let mut rng = Prng::new(report::run_seed(seed, "C02deep", run));
+    let mut out = RunOutcome::default();
+    out.stats.inc("runs");
+    out.stats.inc("runs.deep_concurrent_verifiers");
+    let mut loaded = Vec::new();
+    for k in &pool.keys {
+        match k.load() {
+            Ok(kp) => loaded.push(kp),
+            Err(_) => {
+                out.stats.inc("harness.pool_key_not_loadable");
+                return out;
+            }
+        }
+    }
+    let nkeys = loaded.len();
+    let spec = SpecVerifier::new(512);
+    let p = codec::params(512);
+    let hs: Vec<Vec<i64>> = pool.keys.iter().map(|k| codec::pk_decode(p, &k.pk_bytes).unwrap_or_default()).collect();
+    let nthreads = 2 + rng.usize_below(4);
+    let mut threads = Vec::new();
+    let mut expected: Vec<Vec<bool>> = Vec::new();
+    for _ in 0..nthreads {
+        let home = rng.usize_below(nkeys);
+        let mut ops = Vec::new();
+        let mut exp = Vec::new();
+        for _ in 0..20 + rng.usize_below(40) {
+            let k = if rng.chance(5, 6) { home } else { rng.usize_below(nkeys) };
+            // the signature's origin: mostly key k itself, sometimes another key (then the verdict is "reject")
+            let j = if rng.chance(4, 5) { k } else { rng.usize_below(nkeys) };
+            let (m, sg) = rng.pick(&pool.keys[j].sigs).clone();
+            let want = match codec::sig_decode(p, &sg) {
+                Ok(f) => spec.verify(&m, f.salt, f.body, &hs[k]).accepted(),
+                Err(_) => false,
+            };
+            exp.push(want);
+            ops.push(Op::Verify { key: k, msg: m, sig: sg });
+        }
+        threads.push(ops);
+        expected.push(exp);
+    }
+    let yields: u64 = threads.iter().map(|t| t.len() as u64 * 10).sum();
+    let budget = *rng.pick(&[3u64, 10, 30, 100]);
+    let mut k = 0u32;
+    while k < 30 && (yields >> k) > budget {
+        k += 1;
+    }
+    let plan = WorldPlan { n: 512, key_seeds: Vec::new(), sched_seed: rng.next_u64(), switch_exp: Some(k), boundary: rng.below(257) as u32, threads, align: None };
+    let shared: Keys<V512> = std::sync::Arc::new(loaded);
+    let (res, sched) = signers::execute::<V512>(&plan, shared);
+    if sched.free_running {
+        out.stats.inc("inconclusive.schedule_infeasible");
+        return out;
+    }
+    out.stats.steps += sched.steps;
+    out.stats.add("deep.yield_points", sched.steps);
+    out.stats.add("sched.switches", sched.switches);
+    out.stats.add("sched.lock_handoffs", sched.lock_handoffs);
+    if sched.switches > 0 {
+        out.stats.interleavings.insert(sched.trace_hash);
+    }
+    'outer: for (t, tr) in res.iter().enumerate() {
+        let ops = match tr {
+            Ok(o) => o,
+            Err(u) => {
+                out.violations.push(Violation { property: PROP, class: format!("simulated verifier thread died: {}", u.signature()), detail: format!("deep run {} thread {}", run, t), replay: json!({"kind": "deep-rerun", "deep": true, "seed": seed, "run": run}), run: (1 << 41) + 100 + run });
+                break;
+            }
+        };
+        for (i, r) in ops.iter().enumerate() {
+            out.stats.evaluations += 1;
+            let want = expected[t][i];
+            let bad = match r {
+                OpResult::Verified(b) if *b == want => None,
+                OpResult::Verified(true) => Some("verify512 accepts what the specification rejects while other threads verify under other keys".to_string()),
+                OpResult::Verified(false) => Some("verify512 rejects what the specification accepts while other threads verify under other keys".to_string()),
+                OpResult::Unwound(u) => Some(format!("verify512 {} (concurrent verifiers)", u.signature())),
+                _ => None,
+            };
+            if let Some(class) = bad {
+                out.violations.push(Violation { property: PROP, class, detail: format!("deep run {} thread {} op {}", run, t, i), replay: json!({"kind": "deep-rerun", "deep": true, "seed": seed, "run": run}), run: (1 << 41) + 100 + run });
+                break 'outer;
+            }
+        }
+    }
+    out
+}
+
+fn deep_pool(seed: u64) -> crate::world::KeyPool<V512> {
+    crate::world::KeyPool::build(report::run_seed(seed, "c02-deep-pool", 0), 6, 4, report::workers())
+}
+
+/// entry of the deep binary: `falcon-sim deepruns C02 <tier> <seed> <outfile>`
+pub fn deepruns_main(tier: Tier, seed: u64, outfile: &str) -> i32 {
+    let w = report::workers();
+    let runs = if tier == Tier::Quick { 240u64 } else { 6000 };
+    let pool = deep_pool(seed);
+    if pool.keys.len() < 6 || pool.keys.iter().any(|k| k.sigs.is_empty()) {
+        eprintln!("HARNESS-ERROR: deep key pool could not be built");
+        return 2;
+    }
+    let mut out = report::parallel_runs(runs, w, |run| deep_run(seed, run, &pool));
+    for (run, what) in report::take_dead_runs(&mut out.stats) {
+        out.violations.push(Violation {
+            property: PROP,
+            class: format!("run's process died: {}", what),
+            detail: format!("deep run {}", run),
+            replay: json!({"kind": "deep-rerun", "deep": true, "seed": seed, "run": run}),
+            run: (1 << 41) + 100 + run,
+        });
+    }
+    match std::fs::write(outfile, out.to_bytes()) {
+        Ok(_) => 0,
+        Err(_) => 2,
+    }
+}
+
 pub fn replay(doc: &Value) -> Option<String> {
+    if doc.get("kind").and_then(|k| k.as_str()) == Some("deep-rerun") {
+        let seed = doc.get("seed")?.as_u64()?;
+        let run = doc.get("run")?.as_u64()?;
+        let pool = deep_pool(seed);
+        let o = crate::isolate::isolated(|| deep_run(seed, run, &pool).to_bytes(), crate::isolate::run_timeout_s()).ok()?;
+        return RunOutcome::from_bytes(&o)?.violations.first().map(|v| v.class.clone());
+    }
     let d = Delivery::from_json(doc.get("delivery")?)?;
     let or = Oracles::new();
     let j = judge(&or, &d);
@@ -517,7 +650,17 @@ pub fn check(tier: Tier, seed: u64) -> i32 {
     corpus(&mut rep);
     let out = report::parallel_runs(ctx.runs, w, |run| one_run(seed, run, &ctx.pools, &ctx.or, ctx.per_run));
     rep.absorb(out);
-    rep.rule = "a case is one (msg, sig, pk) triple delivered to a verifier node: fresh honest signatures, the same through bit flips / overwrites / splices / torn writes of signature or key, Byzantine exact-norm triples (Z1: norm = T chosen at, one below and one above floor(beta^2) of either variant, optionally with an s1 coordinate at +-6144), non-canonical re-encodings of those (Z2: negative zero, padding bit, 256/512/1024 extra unary zeros), grammar-aware crafted bodies, plus duplicated and reordered deliveries; non-trivial = both inputs decode and the compressed part is well-formed, so the verdict is decided by the norm test; distinct = distinct triples".into();
+    match crate::props::run_deep_batch(PROP, tier, seed) {
+        Ok(Some(o)) => rep.absorb(o),
+        Ok(None) => {
+            rep.stats.notes.insert("NOTE: no instrumented (deep) build available; the concurrent-verifiers batch was skipped".into());
+        }
+        Err(e) => {
+            eprintln!("HARNESS-ERROR: {}", e);
+            return 2;
+        }
+    }
+    rep.rule = "a case is one (msg, sig, pk) triple delivered to a verifier node: fresh honest signatures, the same through bit flips / overwrites / splices / torn writes of signature or key, Byzantine exact-norm triples (Z1: norm = T chosen at, one below and one above floor(beta^2) of either variant, optionally with an s1 coordinate at +-6144), non-canonical re-encodings of those (Z2: negative zero, padding bit, 256/512/1024 extra unary zeros), grammar-aware crafted bodies, plus duplicated and reordered deliveries, cross-variant pairs (Z7), and a deep batch (instrumented build) in which 2-5 baton-scheduled threads, each mostly with its own public key, verify honest signatures under the right and under other keys, every verdict compared with SpecVerify's; non-trivial = both inputs decode and the compressed part is well-formed, so the verdict is decided by the norm test; distinct = distinct triples".into();
     rep.assumptions = vec![
         "SpecVerify (sim/src/reference/specverify.rs) implements Algorithms 16/3/18 of the specification; SHAKE-256 comes from the sha3 crate (trusted, cross-checked against PQClean's Keccak by C16)".into(),
         "public-key fields >= q, if the decoder accepts them, are reduced mod q on the reference side".into(),
